@@ -1,0 +1,15 @@
+//go:build verif
+
+package phase1
+
+import "math/rand"
+
+// VerifSeed, when set, replaces the time-based seed of the greedy cycle breaker's RNG
+// so that runs with the non-deterministic node choice can be replayed.
+var VerifSeed *int64
+
+func verifReseed(p *greedyProcessor) {
+	if VerifSeed != nil {
+		p.rnd = rand.New(rand.NewSource(*VerifSeed))
+	}
+}
